@@ -9,7 +9,8 @@ from .. import terms as T
 ID = "C03"
 LEVEL = "exploration"
 RULE = ("every byte string written by the C01/C02/C14 serializer workloads (generic and rdflib, three physical "
-        "types, all entry points, delimited and single-frame, with and without namespace declarations) is decoded by "
+        "types, all entry points, delimited and single-frame, with and without namespace declarations; one case in five with "
+        "prefix/datatype tables smaller than a row needs, where the serializer may refuse) is decoded by "
         "rv.wire + rv.refdec (strict graph bracketing); a SpecViolation of any kind, or decoded statements != input "
         "(sequence for generic input, set for rdflib stores/inputs), is a violation. Non-trivial: >= 2 statements and "
         ">= 1 eviction, elision or zero-form id validated; distinct by hash of (config, statements).")
@@ -81,6 +82,11 @@ def run_shard(ctx):
         rng = ctx.rng(i)
         i += 1
         cfg, stmts, ns = workloads.serializer_case(rng, max_len=50 if ctx.tier == "quick" else rng.choice([50, 50, 300]))
+        if rng.random() < 0.2:
+            # undersized tables: the serializer may refuse (raise); if it writes, the bytes must still be valid
+            n, p, d = cfg["preset"]
+            cfg["preset"] = (n, rng.choice([1, 2, 3]) if p else 0, rng.choice([1, 2]) if d else 0)
+            ctx.observe("undersized-table-cases")
         w, res = check_stream(cfg, stmts, ns)
         ctx.observe(f"{cfg['integration']}:{cfg['entry']}")
         ctx.observe(f"{cfg['integration']}:physical{cfg['physical']}")
